@@ -19,6 +19,7 @@ import (
 	"encoding/hex"
 	"errors"
 	"fmt"
+	"math"
 
 	"github.com/google/gce-tcb-verifier/sev"
 	"github.com/google/go-sev-guest/abi"
@@ -66,6 +67,9 @@ func FromAttestation(at *spb.Attestation) ([]byte, error) {
 // a range that wraps around 2^32 passes its bounds check and then makes it allocate up to 4 GiB and
 // slice out of range. Tables from untrusted sources must pass this check before they are unmarshaled.
 //
+// For the same reason a range must end below 2^32 even when the table is longer than that: Unmarshal
+// would slice the table from the offset to the wrapped end.
+//
 // Unmarshal copies every entry's range, so the ranges together must also not be longer than the
 // table: entries that all name the same bytes would otherwise make a table of n bytes cost n*n/96
 // bytes of copies. The entries of a table laid out by a producer do not overlap.
@@ -79,6 +83,10 @@ func CheckCertTable(table []byte) error {
 		if uint64(entry.Offset)+uint64(entry.Length) > uint64(len(table)) {
 			return fmt.Errorf("cert table entry %d specifies a byte range outside the certificate data block (size %d): offset=%d, length=%d",
 				i, len(table), entry.Offset, entry.Length)
+		}
+		if uint64(entry.Offset)+uint64(entry.Length) > math.MaxUint32 {
+			return fmt.Errorf("cert table entry %d specifies a byte range that ends beyond 4 GiB: offset=%d, length=%d",
+				i, entry.Offset, entry.Length)
 		}
 		total += uint64(entry.Length)
 		if total > uint64(len(table)) {
